@@ -58,7 +58,7 @@ theorem freshInput_total (st : State) (c : Conn) (i : Input) :
     left
     simp only [freshInput]
     split
-    · right; left; exact ⟨200, by simp⟩
+    · right; left; exact ⟨200, by simp [mergeTunnel]⟩
     · exact httpThenClose_answered ..
   | httpOther => left; exact httpThenClose_answered ..
   | wsUpgrade ok =>
